@@ -124,6 +124,25 @@ pub fn run(
                     accept_route = false;
                 }
 
+                // the two halves were validated by separate searches (the reverse half against its
+                // successor instead of its predecessor, the junction not at all): confirm that
+                // every edge of the composed route may follow its predecessor
+                for (prev, next) in this_route.iter().tuple_windows() {
+                    let prev_edge = si.directed_graph.get_edge(&prev.edge_id)?;
+                    let next_edge = si.directed_graph.get_edge(&next.edge_id)?;
+                    let valid = si.frontier_model.valid_frontier(
+                        next_edge,
+                        &prev.result_state,
+                        Some(prev_edge),
+                        &si.state_model,
+                    )?;
+                    if !valid {
+                        log::debug!("ksp:{} violates frontier model", ksp_it);
+                        accept_route = false;
+                        break;
+                    }
+                }
+
                 // for test user-provided similarity threshold and absolute similarity
                 for solution_route in solution.iter() {
                     let absolute_similarity = test_id_similarity(&this_route, solution_route);
